@@ -316,13 +316,13 @@ func runC19(c *explore.Ctx) {
 		s.WallS = time.Since(t0).Seconds()
 	}
 	// validated documents (what a server caches): the links into the schema must not get in the way
-	s = c.Sub("validated", "every document of the validation-kit profiles operations and arguments (thorough: also links, values, directives, fragments, variables) that validates against the rich kit schema (types, scalars, enums and input objects of which carry type-level directives), validated first", "as above", "documents that validate")
+	s = c.Sub("validated", "every document of the validation-kit profiles operations, arguments and shapes (untyped inline fragments, object literals with keys out of name order; thorough: also links, values, directives, fragments, variables) that validates against the rich kit schema (types, scalars, enums and input objects of which carry type-level directives), validated first", "as above", "documents that validate")
 	if s != nil {
 		t0 := time.Now()
 		c19Validate = kitSchema(0)
-		profs := []string{"operations", "arguments"}
+		profs := []string{"operations", "arguments", "shapes"}
 		if c.Thorough() {
-			profs = []string{"links", "values", "directives", "fragments", "variables"}
+			profs = append(profs, "links", "values", "directives", "fragments", "variables")
 		}
 		for _, prof := range profs {
 			forEachProfileDoc(c, s, prof, func(d kitDoc) {
